@@ -203,7 +203,7 @@ Example C12_example_runs :
   (forall p, In p [1; 3; 7; 100] ->
      exists rows rt txs wr, ex_run p = Some (rows, Some (MkExt (-4) (-15) 30 40), rt, txs, wr) /\
        List.length rows = 7%nat /\ map fst rt = [0; 2; 4; 5; 6]%N /\ Z.of_N txs = 7 / p + 1) /\
-  (exists x, ex_run 7 = Some (x, 2%N, 2%N)) /\ (exists x, ex_run 3 = Some (x, 3%N, 6%N)) /\
+  (exists x, ex_run 7 = Some (x, 2%N, 2%N)) /\ (exists x, ex_run 3 = Some (x, 3%N, 5%N)) /\
   nth_error (match ex_run 3 with Some (rows, _, _, _, _) => rows | None => [] end) 0 =
     Some [CVal (VInt 1); CVal (VInt 7); CGeom (ex_geom 0); CVal (VText 1); CVal (VReal 12)].
 Proof.
